@@ -91,6 +91,8 @@ Definition add64 (a b : N) : res N := if a + b <? two64 then Ok (a + b) else Pan
 Definition add32 (a b : N) : res N := if a + b <? two32 then Ok (a + b) else Panic.
 Definition wrapping_add64 (a b : N) : N := (a + b) mod two64.
 Definition saturating_add64 (a b : N) : N := if a + b <? two64 then a + b else u64_max.
+(* cas.wrapping_add(1).max(1): the CAS a conditional store gives an absent key *)
+Definition next_client_cas (c : N) : N := N.max ((c + 1) mod two64) 1.
 
 (* ASCII decimal rendering of a number (u64::to_string) *)
 Definition digit (d : N) : byte := n2b (48 + d).
